@@ -85,7 +85,11 @@ Definition write (m : fs) (p : path) (c : bytes) : bool * fs :=
     end
   else (false, m1).
 
-(* FSObject.NewReader + ReadAll: path resolution as the kernel does it *)
+(* FSObject.NewReader + ReadAll: path resolution as the kernel does it.
+   Since fix 8c1d2a3 NewReader maps ENOENT, ENOTDIR (a regular file on the
+   way) and "the name is a directory" to ErrObjectNotExist.  RIsDir / RNotDir
+   remain as result tags the harness can report (the behaviour before the
+   fix); the model never produces them. *)
 Inductive rres := ROk (c : bytes) | RNotExist | RIsDir | RNotDir.
 Fixpoint walk_dirs (m : fs) (ds : list path) : option rres :=
   match ds with
@@ -93,7 +97,7 @@ Fixpoint walk_dirs (m : fs) (ds : list path) : option rres :=
   | d :: ds' =>
       match fget d m with
       | Some D => walk_dirs m ds'
-      | Some (F _) => Some RNotDir       (* ENOTDIR: not mapped to ErrObjectNotExist *)
+      | Some (F _) => Some RNotExist     (* ENOTDIR -> ErrObjectNotExist *)
       | None => Some RNotExist           (* ENOENT -> ErrObjectNotExist *)
       end
   end.
@@ -103,7 +107,7 @@ Definition read (m : fs) (p : path) : rres :=
   | None =>
       match fget p m with
       | Some (F c) => ROk c
-      | Some D => RIsDir                 (* os.Open succeeds, Read fails with EISDIR *)
+      | Some D => RNotExist              (* os.Open succeeds, Stat says directory -> ErrObjectNotExist *)
       | None => RNotExist
       end
   end.
@@ -171,15 +175,10 @@ Definition collides (p : path) (s : smap) : bool := above p s || below p s.
 
 Definition spec_write (s : smap) (p : path) (c : bytes) : bool * smap :=
   if collides p s then (false, s) else (true, sput p c s).
-(* what the code does *)
-Definition spec_read (s : smap) (p : path) : rres :=
-  match sget p s with
-  | Some c => ROk c
-  | None => if above p s then RNotDir else if below p s then RIsDir else RNotExist
-  end.
-(* what the property asks for *)
+(* reads: what the property asks for is what the code does (fix 8c1d2a3) *)
 Definition spec_read_strict (s : smap) (p : path) : rres :=
   match sget p s with Some c => ROk c | None => RNotExist end.
+Definition spec_read (s : smap) (p : path) : rres := spec_read_strict s p.
 (* strict: every stored name with the prefix (what the property asks for);
    otherwise what the code does (names below a non-UTF-8 directory missing) *)
 Definition spec_list (strict : bool) (s : smap) (prefix : bytes) : list bytes := listing strict s prefix.
@@ -217,12 +216,11 @@ Fixpoint run_spec (strict : bool) (s : smap) (ops : list op) : list res * smap :
   end.
 
 (* the only operations on which the code and the property's wording differ:
-   reading an absent name that is an ancestor or a descendant of a stored
-   name, and listing when a stored name with the prefix lies below a
-   directory whose name is not valid UTF-8 *)
+   listing when a stored name with the prefix lies below a directory whose
+   name is not valid UTF-8 *)
 Definition deviating (s : smap) (o : op) : bool :=
   match o with
-  | ORead n => match sget (components n) s with Some _ => false | None => collides (components n) s end
+  | ORead _ => false
   | OList pre => existsb (fun kv => has_prefix (join_path (fst kv)) pre && negb (walkable (fst kv))) s
   | OWrite _ _ => false
   end.
